@@ -3,6 +3,7 @@
 package v1
 
 import (
+	"encoding/json"
 	"reflect"
 
 	"github.com/fatedier/frp/pkg/config/types"
@@ -348,5 +349,83 @@ func verif_ServerTransportConfig_Complete(c *ServerTransportConfig) {
 		// that case is not decided here: the engine does not follow a pointer
 		// to a local through the heap)
 		verif.Ensures(c.HeartbeatTimeout == 90, "watchdog_of_90s_by_default_without_tcp_mux")
+	}
+}
+
+// The typed sub-decoders (proxy, visitor, and their plugin options) cannot see
+// the parent decoder's options; they read the package-level strict switch (set
+// by LoadConfigure, see pkg/config): the options value is decoded by a decoder
+// that rejects unknown keys exactly when the switch is on (C18: a misspelt key
+// is rejected - or not - in the same way at every level and in every format).
+
+//verif:assume-typeassert (*~/pkg/config/v1.TypedVisitorPluginOptions).UnmarshalJSON
+//verif:contract (*~/pkg/config/v1.TypedVisitorPluginOptions).UnmarshalJSON
+//verif:props C18
+//verif:kinds post
+func verif_TypedVisitorPluginOptions_UnmarshalJSON(c *TypedVisitorPluginOptions, b []byte) {
+	strict := DisallowUnknownFields
+	verif.ResetEvents()
+	err := c.UnmarshalJSON(b)
+	const evStrict, evDecode = "json.Decoder).DisallowUnknownFields", "json.Decoder).Decode"
+	if err == nil && verif.Called(evDecode) {
+		d := verif.NthArg[*json.Decoder](evDecode, 0, 0)
+		verif.Ensures(verif.CallCount(evDecode) == 1 && verif.Called(evStrict) == strict && (!strict || verif.CalledWith(evStrict, 0, d)), "typed_options_decoded_under_the_callers_strictness")
+	}
+	if err == nil && !(len(b) == 4 && string(b) == "null") {
+		verif.Ensures(verif.Called(evDecode), "typed_options_go_through_the_strictness_aware_decoder")
+	}
+}
+
+//verif:assume-typeassert (*~/pkg/config/v1.TypedClientPluginOptions).UnmarshalJSON
+//verif:contract (*~/pkg/config/v1.TypedClientPluginOptions).UnmarshalJSON
+//verif:props C18
+//verif:kinds post
+func verif_TypedClientPluginOptions_UnmarshalJSON(c *TypedClientPluginOptions, b []byte) {
+	strict := DisallowUnknownFields
+	verif.ResetEvents()
+	err := c.UnmarshalJSON(b)
+	const evStrict, evDecode = "json.Decoder).DisallowUnknownFields", "json.Decoder).Decode"
+	if err == nil && verif.Called(evDecode) {
+		d := verif.NthArg[*json.Decoder](evDecode, 0, 0)
+		verif.Ensures(verif.CallCount(evDecode) == 1 && verif.Called(evStrict) == strict && (!strict || verif.CalledWith(evStrict, 0, d)), "typed_options_decoded_under_the_callers_strictness")
+	}
+	if err == nil && !(len(b) == 4 && string(b) == "null") {
+		verif.Ensures(verif.Called(evDecode), "typed_options_go_through_the_strictness_aware_decoder")
+	}
+}
+
+//verif:assume-typeassert (*~/pkg/config/v1.TypedProxyConfig).UnmarshalJSON
+//verif:contract (*~/pkg/config/v1.TypedProxyConfig).UnmarshalJSON
+//verif:props C18
+//verif:kinds post
+func verif_TypedProxyConfig_UnmarshalJSON(c *TypedProxyConfig, b []byte) {
+	strict := DisallowUnknownFields
+	verif.ResetEvents()
+	err := c.UnmarshalJSON(b)
+	const evStrict, evDecode = "json.Decoder).DisallowUnknownFields", "json.Decoder).Decode"
+	if err == nil && verif.Called(evDecode) {
+		d := verif.NthArg[*json.Decoder](evDecode, 0, 0)
+		verif.Ensures(verif.CallCount(evDecode) == 1 && verif.Called(evStrict) == strict && (!strict || verif.CalledWith(evStrict, 0, d)), "typed_options_decoded_under_the_callers_strictness")
+	}
+	if err == nil && !(len(b) == 4 && string(b) == "null") {
+		verif.Ensures(verif.Called(evDecode), "typed_options_go_through_the_strictness_aware_decoder")
+	}
+}
+
+//verif:assume-typeassert (*~/pkg/config/v1.TypedVisitorConfig).UnmarshalJSON
+//verif:contract (*~/pkg/config/v1.TypedVisitorConfig).UnmarshalJSON
+//verif:props C18
+//verif:kinds post
+func verif_TypedVisitorConfig_UnmarshalJSON(c *TypedVisitorConfig, b []byte) {
+	strict := DisallowUnknownFields
+	verif.ResetEvents()
+	err := c.UnmarshalJSON(b)
+	const evStrict, evDecode = "json.Decoder).DisallowUnknownFields", "json.Decoder).Decode"
+	if err == nil && verif.Called(evDecode) {
+		d := verif.NthArg[*json.Decoder](evDecode, 0, 0)
+		verif.Ensures(verif.CallCount(evDecode) == 1 && verif.Called(evStrict) == strict && (!strict || verif.CalledWith(evStrict, 0, d)), "typed_options_decoded_under_the_callers_strictness")
+	}
+	if err == nil && !(len(b) == 4 && string(b) == "null") {
+		verif.Ensures(verif.Called(evDecode), "typed_options_go_through_the_strictness_aware_decoder")
 	}
 }
